@@ -49,9 +49,37 @@ POW2 = [2.0 ** -10, 2.0 ** -5, 2.0 ** 5, 2.0 ** 10]
 PEAK = "structure_factor_maximum"
 
 
-def gls(field, method, **kw):
+PROBLEMS: list[str] = []  # why the last gls() call did not yield a real number (exception / complex value)
+
+
+def gls_raw(field, method, **kw):
     from droplets.image_analysis import get_length_scale
-    return float(get_length_scale(field, method=method, **kw))
+    return get_length_scale(field, method=method, **kw)
+
+
+def gls(field, method, **kw) -> float:
+    """The implementation's length scale as a float.  A call that raises or returns a complex / non-numeric value on a
+    valid input is a property failure, never a crash of the check: it is mapped to nan (every comparison with nan fails
+    and is reported with its input) and the reason is kept in PROBLEMS."""
+    try:
+        v = gls_raw(field, method, **kw)
+    except Exception as e:  # noqa: BLE001
+        PROBLEMS.append(f"{method}: raised {type(e).__name__}: {e}")
+        return math.nan
+    if isinstance(v, (complex, np.complexfloating)):
+        if v.imag != 0:
+            PROBLEMS.append(f"{method}: returned the complex number {v!r}")
+            return math.nan
+        v = v.real
+    try:
+        return float(v)
+    except Exception as e:  # noqa: BLE001
+        PROBLEMS.append(f"{method}: returned {v!r} ({type(e).__name__})")
+        return math.nan
+
+
+def last_problem() -> str:
+    return PROBLEMS[-1] if PROBLEMS else ""
 
 
 def rel_close(a, b, rel):
@@ -147,11 +175,19 @@ def gen_emulsion_case(rng: random.Random) -> dict:
     shape = [rng.randrange(max(8, cap // 2), cap + 1) for _ in range(d)]
     h0 = math.ldexp(1 + rng.randrange(4) / 4.0, rng.randrange(-2, 3))
     h = [h0 * rng.choice([1.0, 1.0, 0.5, 2.0]) for _ in range(d)]
-    origin = [rng.choice([0.0, math.ldexp(rng.randrange(-16, 17), -2)]) for _ in range(d)]
     ext = [n * hh for n, hh in zip(shape, h)]
+    # position of the box: at the origin, centred, shifted to positive coordinates, entirely negative, or mixed per axis
+    # (all values dyadic, so that stretching by powers of two stays exact)
+    place = rng.choice(["origin", "centred", "positive", "negative", "mixed"])
+    shift = [math.ldexp(rng.randrange(1, 33), -2) for _ in range(d)]
+    origin = {"origin": [0.0] * d,
+              "centred": [-e / 2 for e in ext],
+              "positive": shift,
+              "negative": [-e - s_ for e, s_ in zip(ext, shift)],
+              "mixed": [rng.choice([0.0, -e / 2, s_, -e - s_, -s_]) for e, s_ in zip(ext, shift)]}[place]
     nd = rng.randrange(1, 4)
     drops = [{"pos": [rng.random() for _ in range(d)], "radius": 0.1 + 0.12 * rng.random()} for _ in range(nd)]
-    return {"shape": shape, "h": h, "origin": origin, "kind": "emulsion", "drops": drops,
+    return {"shape": shape, "h": h, "origin": origin, "place": place, "kind": "emulsion", "drops": drops,
             "width": 0.75 * max(h), "lmin": min(ext)}
 
 
@@ -173,11 +209,16 @@ def prop_count(c: dict, rng: random.Random) -> list[dict]:
     d = len(c["shape"])
     if n == 0:
         return []  # outside the property text (n >= 1)
+    del PROBLEMS[:]
     L = gls(f, "droplet_detection")
-    if not math.isfinite(L):
-        return [{"what": "droplet_detection is not finite although droplets are detected", "method": "droplet_detection",
-                 "input": sc.canon(c), "droplets": n, "got": repr(L)}]
     bounds = f.grid.axes_bounds
+    V0 = 1.0
+    for lo, hi in bounds:
+        V0 *= float(hi) - float(lo)
+    if not (math.isfinite(L) and L > 0):
+        return [{"what": "droplet_detection is not a positive finite real length although droplets are detected",
+                 "method": "droplet_detection", "input": sc.canon(c), "droplets": n, "got": repr(L),
+                 "want": (V0 / n) ** (1.0 / d), "problem": last_problem()}]
     V = 1.0
     for lo, hi in bounds:
         V *= float(hi) - float(lo)
@@ -257,7 +298,7 @@ def probe_noncartesian(ctx) -> None:
         ctx.case(["droplet_detection", inp])
         ctx.count("method", "droplet_detection/non-cartesian")
         try:
-            L = gls(f, "droplet_detection")
+            L = float(gls_raw(f, "droplet_detection"))
         except Exception as e:  # noqa: BLE001
             kind = type(e).__name__
             ent = sc.known_entry("C17", "get_length_scale", "droplet_detection", kind, grid=type(grid).__name__)
@@ -489,16 +530,19 @@ def prop_peak_field(c: dict, rng: random.Random, known_lines: list) -> list[dict
 
 
 # ---------------------------------------------------------------------------------------------
-def _sample_goals(ctx, rng, py, consts, corr):
+def _sample_goals(ctx, rng, py, consts, corr) -> list:
     from droplets.image_analysis import get_structure_factor, locate_droplets
     goals = []
+    cases_of: dict = {}
+    disagree: list = []
     for _ in range(ctx.scale(3, 8)):
         c = sc.gen_case(rng, kind=rng.choice(["noise", "waves"]))
         f = sc.make_field(c)
         k, sf = get_structure_factor(f)
         S, K = float(np.sum(sf)), float(np.sum(k * sf))
         L = gls(f, "structure_factor_mean")
-        goals.append((f"ls_mean@{c['shape']}", f"ls_mean {vlib.rlit(S)} {vlib.rlit(K)}", L, 1e-12 * abs(L)))
+        goals.append((f"ls_mean@{c['shape']}#{len(goals)}", f"ls_mean {vlib.rlit(S)} {vlib.rlit(K)}", L, 1e-12 * abs(L)))
+        cases_of[goals[-1][0]] = ("mean", c)
         td = float(f.grid.typical_discretization)
         v = float(py["ls_default_smoothing"](typical_discretization=td))
         goals.append((f"ls_default_smoothing({td})", f"ls_default_smoothing {vlib.rlit(td)}", v, 1e-13 * abs(v)))
@@ -519,18 +563,23 @@ def _sample_goals(ctx, rng, py, consts, corr):
             continue
         L = gls(f, "droplet_detection")
         if not math.isfinite(L):  # no Coq literal: a model / implementation disagreement with this input
-            corr.append((f"droplet_detection: implementation returned {L!r} although locate_droplets finds {n} droplet(s)",
-                         sc.canon(c)))
+            corr.append((f"droplet_detection: implementation returned {L!r} although locate_droplets finds {n} droplet(s)"
+                         f" {last_problem()}", sc.canon(c)))
+            disagree.append(("count", c))
             continue
         bl = "; ".join(f"({vlib.rlit(float(lo))}, {vlib.rlit(float(hi))})" for lo, hi in f.grid.axes_bounds)
         d = len(c["shape"])
-        goals.append((f"ls_count@{c['shape']} n={n}",
+        goals.append((f"ls_count@{c['shape']} n={n}#{len(goals)}",
                       f"ls_count (ls_volume_per_droplet (ls_volume [{bl}]) {n}) {d}%nat {d}%nat", L, 1e-12 * abs(L)))
+        cases_of[goals[-1][0]] = ("count", c)
         ctx.case(["sample-goals", sc.canon(c)])
     ctx.sample({"goal": f"Rabs ({goals[0][1]} - {vlib.rlit(goals[0][2])}) <= tol", "impl_value": goals[0][2]})
-    sc.sample_goal_shards(ctx, "c17", goals,
-                          ["ls_mean", "ls_default_smoothing", "ls_peak", "ls_peak_bracket", "ls_count",
-                           "ls_volume_per_droplet", "ls_volume", "fold_left", "fst", "snd", "INR"])
+    bad = sc.sample_goal_shards(ctx, "c17", goals,
+                                ["ls_mean", "ls_default_smoothing", "ls_peak", "ls_peak_bracket", "ls_count",
+                                 "ls_volume_per_droplet", "ls_volume", "fold_left", "fst", "snd", "INR"])
+    # a sample on which the Coq model and the implementation disagree is the candidate failing input
+    disagree.extend(cases_of[lbl] for lbl in bad if lbl in cases_of)
+    return disagree
 
 
 def check(ctx: vlib.Ctx) -> int:
@@ -549,10 +598,15 @@ def check(ctx: vlib.Ctx) -> int:
     if not gen_ok:
         ctx.broken.append("model of Gen_spectrum unavailable on the Python side: " + "; ".join(ctx.notes[-1:]))
     corr_bad: list = []  # (message, input) of model / implementation disagreements
-    if gen_ok and ok:
-        _sample_goals(ctx, rng, py, consts, corr_bad)
-    boost = 2 if (ctx.broken or fell_back) else 1
     failures: list[dict] = []
+    if gen_ok and ok:
+        for kind, c in _sample_goals(ctx, rng, py, consts, corr_bad):
+            # the property oracle decides whether the disagreeing sample is a failing input of the property
+            confirmed = prop_count(c, rng) if kind == "count" else prop_mean(c, rng)
+            for f_ in confirmed:
+                f_["from"] = "sample on which the Coq model and the implementation disagree"
+            failures.extend(confirmed)
+    boost = 2 if (ctx.broken or fell_back) else 1
     known_f7: list[str] = []
     # (A) moment method
     for i in range(boost * ctx.scale(60, 400)):
